@@ -326,6 +326,16 @@ def run(chk, repo):
         ok = len(eb) == 2 and isinstance(eb[0], ast.If) and unparse(eb[0].test) == "swap" \
             and [unparse(s) for s in eb[0].body] == ["chunk.byteswap()", "data = tobytes()", "chunk.byteswap()", "return data"] \
             and unparse(eb[1]) == "return tobytes()"
+    if ok is False or (len(ex) == 1 and not ok):
+        # the swap test taken once, outside: if swap: def export(): swap, export, swap back  else: export = tobytes
+        cond = [n_ for n_ in ab if isinstance(n_, ast.If) and unparse(n_.test) == "swap" and len(n_.body) == 1 and len(n_.orelse) == 1]
+        if len(cond) == 1 and isinstance(cond[0].body[0], FuncTypes) and cond[0].body[0].name == "export":
+            eb2 = docstring_free(cond[0].body[0].body)
+            alt = cond[0].orelse[0]
+            ok = [unparse(s_) for s_ in eb2] == ["chunk.byteswap()", "data = tobytes()", "chunk.byteswap()", "return data"] \
+                and not cond[0].body[0].args.args \
+                and (unparse(alt) == "export = tobytes" or (isinstance(alt, FuncTypes) and alt.name == "export"
+                                                            and [unparse(s_) for s_ in docstring_free(alt.body)] == ["return tobytes()"]))
     chk.decide(ok, "C18.array", WI("chunks[array].export"), "swap, export, swap back; plain export otherwise",
                why="the buffer must return to native order so that later items are stored correctly", node=ca)
     tb = at.get("tobytes")
